@@ -22,24 +22,24 @@ def put (cur : Option Act) (a : Act) : Option Act :=
   | some c => if a.ts.before c.ts then some c else some a
   | none => some a
 
-theorem before_iff (a b : Ts) : a.before b = true ↔ a.secs < b.secs ∨ (a.secs = b.secs ∧ a.nanos < b.nanos) := by
+theorem before_iff (a b : Ts) :
+    a.before b = true ↔ a.instant.1 < b.instant.1 ∨ (a.instant.1 = b.instant.1 ∧ a.instant.2 < b.instant.2) := by
   simp [Ts.before]
 
 theorem not_before_trans (a b c : Ts) (h1 : a.before b = false) (h2 : b.before c = false) : a.before c = false := by
   cases h : a.before c with
   | false => rfl
   | true =>
-    have h1' : ¬ (a.secs < b.secs ∨ (a.secs = b.secs ∧ a.nanos < b.nanos)) := by rw [← before_iff]; simp [h1]
-    have h2' : ¬ (b.secs < c.secs ∨ (b.secs = c.secs ∧ b.nanos < c.nanos)) := by rw [← before_iff]; simp [h2]
+    have h1' : ¬ (a.instant.1 < b.instant.1 ∨ (a.instant.1 = b.instant.1 ∧ a.instant.2 < b.instant.2)) := by rw [← before_iff]; simp [h1]
+    have h2' : ¬ (b.instant.1 < c.instant.1 ∨ (b.instant.1 = c.instant.1 ∧ b.instant.2 < c.instant.2)) := by rw [← before_iff]; simp [h2]
     rw [before_iff] at h
     omega
 
-theorem not_before_antisymm (a b : Ts) (h1 : a.before b = false) (h2 : b.before a = false) : a = b := by
-  have h1' : ¬ (a.secs < b.secs ∨ (a.secs = b.secs ∧ a.nanos < b.nanos)) := by rw [← before_iff]; simp [h1]
-  have h2' : ¬ (b.secs < a.secs ∨ (b.secs = a.secs ∧ b.nanos < a.nanos)) := by rw [← before_iff]; simp [h2]
-  cases a; cases b
-  simp only [Ts.mk.injEq] at *
-  omega
+/-- neither before the other: the same instant (the same timestamp when both are normalised) -/
+theorem not_before_antisymm (a b : Ts) (h1 : a.before b = false) (h2 : b.before a = false) : a.instant = b.instant := by
+  have h1' : ¬ (a.instant.1 < b.instant.1 ∨ (a.instant.1 = b.instant.1 ∧ a.instant.2 < b.instant.2)) := by rw [← before_iff]; simp [h1]
+  have h2' : ¬ (b.instant.1 < a.instant.1 ∨ (b.instant.1 = a.instant.1 ∧ b.instant.2 < a.instant.2)) := by rw [← before_iff]; simp [h2]
+  apply Prod.ext <;> omega
 
 /-- the action kept after the critical sections ran in the order of `l`: one of those sent (or the one stored
     before), and none of them is later than it -/
@@ -82,7 +82,7 @@ theorem kept_is_latest (l : List Act) (cur : Option Act) (hne : cur.isSome = tru
             | true =>
               have := before_iff k.ts a.ts |>.mp hx
               have h2 := before_iff a.ts c.ts |>.mp hb
-              have h3 : ¬ (k.ts.secs < c.ts.secs ∨ (k.ts.secs = c.ts.secs ∧ k.ts.nanos < c.ts.nanos)) := by
+              have h3 : ¬ (k.ts.instant.1 < c.ts.instant.1 ∨ (k.ts.instant.1 = c.ts.instant.1 ∧ k.ts.instant.2 < c.ts.instant.2)) := by
                 rw [← before_iff]; simp [hc]
               omega
           · exact hmax a (Or.inr h)
@@ -103,9 +103,9 @@ theorem C16_conc_keeps_latest (l : List Act) (hne : l ≠ []) :
   obtain ⟨k, hk, hmem, hmax⟩ := kept_is_latest l none (Or.inr hne)
   exact ⟨k, hk, by simpa using hmem, by simpa using hmax⟩
 
-/-- **The timestamp kept does not depend on the interleaving.** -/
+/-- **The instant of the timestamp kept does not depend on the interleaving.** -/
 theorem C16_conc_kept_timestamp_order_independent (l1 l2 : List Act) (hp : l1.Perm l2) :
-    (l1.foldl put none).map (·.ts) = (l2.foldl put none).map (·.ts) := by
+    (l1.foldl put none).map (·.ts.instant) = (l2.foldl put none).map (·.ts.instant) := by
   cases l1 with
   | nil => have := hp.symm.eq_nil; subst this; rfl
   | cons x xs =>
